@@ -3,7 +3,8 @@
 the expected outcome is exit 0 and no VIOLATION line.  usage: tools/benrun.py [names...]   (default: all)
 Imports new ones from /tmp/ben/out/<id>/b<k>.diff when present."""
 import glob, json, os, re, shutil, subprocess, sys, time
-V = "/verif"
+V = os.path.dirname(os.path.dirname(os.path.abspath(__file__)))
+REPO = os.environ.get("VERIF_REPO", "/repo")   # a lane: its own copy of /verif and its own worktree of /repo
 os.chdir(V)
 for d in sorted(glob.glob("/tmp/ben/out/C*/b*.diff")) + sorted(glob.glob("/tmp/ben/out2/C*/b*.diff")):
     pid = d.split("/")[-2]; k = os.path.basename(d)[:-5]
@@ -17,17 +18,17 @@ for d in sorted(glob.glob("/tmp/ben/out/C*/b*.diff")) + sorted(glob.glob("/tmp/b
             shutil.copy(d[:-5] + ".txt", dst + "/note.txt")
 names = sys.argv[1:] or sorted(os.path.basename(p) for p in glob.glob("benign/C*-[bc]*"))
 def clean():
-    subprocess.run(["git", "-C", "/repo", "checkout", "--", "."], check=True)
-    subprocess.run(["git", "-C", "/repo", "clean", "-fdq", "--", "pkg", "internal"], check=True)
+    subprocess.run(["git", "-C", REPO, "checkout", "--", "."], check=True)
+    subprocess.run(["git", "-C", REPO, "clean", "-fdq", "--", "pkg", "internal"], check=True)
 rows = []
 for n in names:
     cross = None
     if "@" in n:                      # <change>@<property>: run another property's check against this change
         n, cross = n.split("@")
     d = os.path.join("benign", n); pid = cross or n.split("-")[0]
-    if subprocess.run(["git", "-C", "/repo", "status", "--porcelain", "--untracked-files=no"], capture_output=True, text=True).stdout.strip():
+    if subprocess.run(["git", "-C", REPO, "status", "--porcelain", "--untracked-files=no"], capture_output=True, text=True).stdout.strip():
         print("/repo dirty, abort"); sys.exit(2)
-    r = subprocess.run(["git", "-C", "/repo", "apply", os.path.abspath(d + "/patch.diff")], capture_output=True, text=True)
+    r = subprocess.run(["git", "-C", REPO, "apply", os.path.abspath(d + "/patch.diff")], capture_output=True, text=True)
     if r.returncode:
         rows.append((n, pid, "patch does not apply", "")); print(rows[-1]); clean(); continue
     t0 = time.time()
